@@ -82,6 +82,16 @@ def r1(ctx, R):
                                                for t, l in q.guards_of(fi, r_))]
         if not rs:
             R.bad(fi, cas[0], "a failed clash test does not raise")
+    nc = ctx.func("SpaceManager.new_cells")
+    R.inst("new_cells: the name that is tested is the name the cells will get (formula name resolved first)")
+    ca_ = q.calls(nc, name="_can_add")
+    res = [n_ for n_ in walk_local(nc.node) if isinstance(n_, ast.Assign) and norm(n_.targets[0]) == "name"
+           and ca_ and not q.path_between(nc, ca_[0], n_) and "Formula(formula).name" in
+           " ".join([norm(n_.value)] + [norm(v) for v in assigned_value(nc, norm(n_.value))])]
+    if not res:
+        R.bad(nc, ca_[0] if ca_ else nc.node, "the clash test sees name=None while CellsImpl.__init__ names the cells after its "
+                                              "formula: new_cells(formula=foo) is accepted although foo is a child space or reference",
+              stmt="resolve formula name before _can_add")
     # _can_add truth table
     ca = ctx.func("SharedSpaceOperations._can_add")
     R.inst("_can_add truth table (is model, name visible, name in a sub, same kind)")
